@@ -616,7 +616,13 @@ func (w *World) afterOp(t *simrt.Task, hs *HandleState, cr *CallRec, before dirS
 	}
 
 	// ---- handle view (C10 / C03)
-	if hs.Open && cr.Class != "panic" {
+	// In "sparse observation" runs (a third of the concurrent runs, from the
+	// run seed) the view is read only after operations that are reads
+	// themselves: reading through a handle after every call keeps every
+	// table of its view opened and touched, which hides defects that need
+	// a table to go unread between a reload and its deletion by another
+	// process (lazily opened readers, caches filled on first use).
+	if hs.Open && cr.Class != "panic" && (!w.sparseObserve() || cr.Kind == OpRead) {
 		w.checkHandleView(hs, cr)
 	}
 
